@@ -216,6 +216,7 @@ package option
 //@   props C01 C02 C06 C12 C18 C19
 //@   requires new.data: DataOK(optType, data)
 //@   requires new.map: optType == StringMapType ==> *ifaceref(data, *map[string]string) != nil
+//@   allocates Option
 //@   modifies
 //@   ensures new.fresh: fresh(result) && result.Name == name && result.OptType == optType
 //@   ensures new.flags {C06}: !result.Called && result.UsedAlias == "" && !result.IsRequired && result.EnvVar == "" && !result.Unknown && len(result.ValidValues) == 0
@@ -268,3 +269,7 @@ package option
 //@   props C17 C19
 //@   modifies
 //@ end
+
+// Text of the missing-required-option error as produced by CheckRequired (used by the callers' contracts).
+//@ spec func ReqMsg(o *Option) string = ite(o.IsRequiredErr != "", errmsg(ErrorMissingRequiredOption) ++ o.IsRequiredErr,
+//@     errmsg(ErrorMissingRequiredOption) ++ "Missing required parameter '" ++ o.Name ++ "'")
